@@ -22,7 +22,8 @@ EXPLANATION = (
     "idiom; R4 orientation of the due test: the stored deadline is the caller's time point unmodified, the loop stops collecting on the "
     "`deadline > now` side with `now` an unmodified Clock::now(), periodic deadlines only advance by `+= interval`, the wheel's cascade and "
     "drain fire on the `deadline <= now` side; R5 acceptance is tested in the critical section that inserts, and a non-zero id is returned "
-    "only after an insertion (both schedulers and the wheel); R6 stop/drain join the worker before state is cleared; R7 condition-variable "
+    "only after an insertion (both schedulers and the wheel); R6 stop/drain join the worker before state is cleared, and every return of TimerService::stop() is behind the join or a "
+    "wait for the joining caller; R7 condition-variable "
     "discipline for the drain and tick waits.")
 NOT_DECIDED = ["the wheel's bucket arithmetic (level/slot computation, cascade timing): 'up to one tick early' is numeric", "timing",
                "a handler already running when cancel is called"]
@@ -430,6 +431,8 @@ def r6(ctx, r):
         r.instance()
         r.expect(stt and work and all(elem_dominates(f, stt[0], w) for w in work) and acc and elem_dominates(f, acc[0], stt[0]), f, None, "wheel %s order" % name,
                  "TimingWheel::%s does not (1) stop accepting, (2) join the tick thread, (3) only then collect/clear entries" % name, okdesc="wheel %s: accepting=false → join tick thread → collect" % name)
+    # every stop() caller returns behind the loop thread's end (a caller that loses the _running CAS waits for the joiner)
+    common.stop_waits_for_worker(r, st, "TimerService::stop()", lambda e: field_of(e.node.get("obj")) == TS + "::_thread", allowed_state_returns=("Stopped", "Reset"))
     # the pool: stop() reaches TimerService::stop() for EVERY service, whatever its state (a Draining service still has its
     # loop thread and armed timers), and the destructor stops the pool
     POOL = "iora::core::TimerServicePool"
